@@ -206,7 +206,7 @@ def datasets(rng, tier, count):
         if shape.endswith("null"):
             for _ in range(rng.randint(1, 2)):
                 col[rng.randrange(1, n)] = None
-        kind = rng.choice([k for k in ["float", "int", "str", "dt"] if api.kind_ok(col, k)])
+        kind = rng.choice([k for k in ["float", "int", "str", "dt", "dttz", "date"] if api.kind_ok(col, k)])
         cuts = sorted(rng.sample(range(1, n), rng.randint(1, min(3, n - 1))))
         b = [0, *cuts, n]
         out.append(dict(col=col, kind=kind, key_chunks=[b[i + 1] - b[i] for i in range(len(b) - 1)], shape=shape))
